@@ -4459,6 +4459,7 @@ def _match__inside_list_quantifier(
     q_min = pat.min
     q_max = pat.max
     matches_ins_idx = 0x7fffffffffffffff
+    static_tags_added = False
     count = 0
 
     if q_max is None:
@@ -4492,7 +4493,9 @@ def _match__inside_list_quantifier(
             count += 1
 
         else:
-            if static_tags := pat.static_tags:
+            if (static_tags := pat.static_tags) and not static_tags_added:  # greedy gets here twice if it reaches max, only add once so that the back-off deletes matches and not these
+                static_tags_added = True
+
                 tagss.append(static_tags)
 
                 if not pat_tag:  # if no pat_tag then inserting matches directly into tagss and need to insert them before the static_tags dict
